@@ -820,7 +820,8 @@ static Bytes draw_tokset(Ctx &c, const char *typical) {
   return s;
 }
 
-enum { OpRead, OpLength, OpMemchr, OpMemstr, OpMemfcn, OpMemtok, OpMemcpy, OpAppend, OpArgv, OpArrayMessage, OpAppendBounded, OpGet, OpAppendState, OpArrayMessageAlias, NOp };
+static void op_many_parts(Case &k, int mode, size_t run_at, size_t run_len, size_t run2_at, size_t run2_len, int sep);
+enum { OpRead, OpLength, OpMemchr, OpMemstr, OpMemfcn, OpMemtok, OpMemcpy, OpAppend, OpArgv, OpArrayMessage, OpAppendBounded, OpGet, OpAppendState, OpArrayMessageAlias, OpManyParts, NOp };
 
 static void one_op(Case &k, int op) {
   Ctx &c = k.c;
@@ -910,7 +911,60 @@ static void one_op(Case &k, int op) {
       op_array_message_alias(k, from_args, sep1, sep2, ranges);
       break;
     }
+    case OpManyParts: {
+      int mode = (int)c.weighted({2, 2, 3});
+      size_t n = k.text.size();
+      size_t at = c.range(0, n), len = c.weighted({1, 3}) ? c.range(60, 200) : c.range(0, 70);
+      size_t at2 = c.range(0, n), len2 = c.weighted({2, 1}) ? c.range(0, 100) : 0;
+      int sep = c.weighted({1, 2}) ? ' ' : draw_sep(c, k.text);
+      op_many_parts(k, mode, at, len, at2, len2, sep);
+      break;
+    }
   }
+}
+
+// ---- fragmentations with very many parts (1-byte pieces, long runs of empty parts inside an argument) for the operations
+//      that look at several parts at once (argv, array_message, memtok): a second fragmented form of the same text
+static void op_many_parts(Case &k, int mode, size_t run_at, size_t run_len, size_t run2_at, size_t run2_len, int sep) {
+  Ctx &c = k.c;
+  size_t n = k.text.size();
+  std::vector<size_t> lens;
+  auto empties = [&](size_t cnt) { for (size_t i = 0; i < cnt; i++) lens.push_back(0); };
+  if (mode == 0) {  // the case's own composition with the runs of empty parts cut in
+    std::vector<size_t> cuts;
+    size_t acc = 0;
+    for (size_t x : k.lens) { acc += x; cuts.push_back(acc); }
+    size_t prev = 0;
+    std::vector<std::pair<size_t, size_t>> runs = {{std::min(run_at, n), run_len}, {std::min(run2_at, n), run2_len}};
+    std::sort(runs.begin(), runs.end());
+    size_t ri = 0;
+    for (size_t cpos : cuts) {
+      while (ri < runs.size() && runs[ri].first <= cpos) { lens.push_back(runs[ri].first - prev); prev = runs[ri].first; empties(runs[ri].second); ++ri; }
+      lens.push_back(cpos - prev); prev = cpos;
+    }
+  } else {  // 1-byte pieces, optionally with the runs
+    for (size_t i = 0; i <= n; i++) {
+      if (mode == 2 && i == std::min(run_at, n)) empties(run_len);
+      if (mode == 2 && i == std::min(run2_at, n)) empties(run2_len);
+      if (i < n) lens.push_back(1);
+    }
+    if (lens.empty()) lens.push_back(0);
+  }
+  Case m(c);
+  m.text = k.text;
+  m.heap.build(m.text, lens);
+  m.fmsg = m.heap.msg();
+  m.finish();
+  c.logf("many parts: %zu parts (%u non-empty), mode %d, empty runs %zu@%zu %zu@%zu", lens.size(), m.nonempty, mode, run_len, run_at, run2_len, run2_at);
+  CK(c, flatten(m.fmsg) == k.text, "harness", "many-part construction broken");
+  op_argv(m, sep);
+  op_array_message(m, sep);
+  op_memtok(m, " \t\n\r\v", 0, "'\"");
+  op_memtok(m, 0, "#", 0);
+  c.label("op:many-parts");
+  c.count("many-parts:parts", lens.size());
+  if (lens.size() > 64) c.label("many-parts:>64");
+  if (m.nt) k.nt = true;
 }
 
 static void run_enum(Ctx &c);
@@ -933,7 +987,7 @@ static void run(Ctx &c) {
   CK(c, flatten(k.fmsg) == k.text && flatten(k.omsg) == k.text, "harness", "fragment construction broken");
   unsigned ops = 0;
   do {
-    one_op(k, (int)c.weighted({4, 1, 2, 2, 2, 4, 3, 2, 5, 3, 3, 3, 3, 2}));  // new operations are added at the end: existing case bytes keep their meaning
+    one_op(k, (int)c.weighted({4, 1, 2, 2, 2, 4, 3, 2, 5, 3, 3, 3, 3, 2, 2}));  // new operations are added at the end: existing case bytes keep their meaning
   } while (++ops < 8 && c.more());
   if (k.nt) c.nontrivial();
 }
@@ -1000,6 +1054,11 @@ static void run_enum(Ctx &c) {
   op_append_state(k, TgtTyped, Bytes(), 'c', Bytes(3, '1'));
   // fixed-capacity arrays: every capacity from "nothing fits" to "just fits", with and without content before
   for (size_t room = 0; room <= n; room++) { op_append_bounded(k, Bytes(), room); op_append_bounded(k, "pp", 2 + room); }
+  // very many parts: once per string, 1-byte pieces with 70 empty parts behind every position in turn
+  if (lens.size() == 1 && n >= 2) {
+    for (size_t at = 0; at <= n; at++) { op_many_parts(k, 2, at, 70, 0, 0, ' '); }
+    op_many_parts(k, 2, 1, 40, n - 1, 40, '\n');
+  }
   // queue ranges: independent of the composition, so only once per string (with the uncut form as the caller's message)
   if (lens.size() == 1) {
     for (size_t slack : {(size_t)0, (size_t)2})
@@ -1027,7 +1086,7 @@ static Target t = {
     "C17",
     "random: text <= 300 bytes (words/white space/quotes/separators/comments/NULs | 1-4 symbol alphabet | arbitrary) x composition into <= 6 fragments with empty fragments, each fragment an "
     "exact-size heap block, or the parts mpt_message_get() yields for a range of a (wrapped) queue; 1-8 operations out of read schedules (lengths at fragment borders +-1), length, "
-    "memchr/memrchr, memstr/memrstr, memfcn/memrfcn, memtok(tok,com,esc), memcpy into a <= 4 fragment target, mpt_message_append (growing array | two identical targets that are empty / raw / raw and shared with a second handle / typed elements | array on a fixed-capacity buffer that refuses to grow, capacity at fragment borders +-1), the argv/read/skip loop, mpt_array_message (also with the message fragments lying inside the target array's own buffer), mpt_message_get over ranges of a second (wrapped) queue with and without the spare iovec into the message the caller holds (refusal must leave it unchanged); every result compared "
+    "memchr/memrchr, memstr/memrstr, memfcn/memrfcn, memtok(tok,com,esc), memcpy into a <= 4 fragment target, mpt_message_append (growing array | two identical targets that are empty / raw / raw and shared with a second handle / typed elements | array on a fixed-capacity buffer that refuses to grow, capacity at fragment borders +-1), the argv/read/skip loop, mpt_array_message (also with the message fragments lying inside the target array's own buffer), mpt_message_get over ranges of a second (wrapped) queue with and without the spare iovec into the message the caller holds (refusal must leave it unchanged); very-many-part forms of the same text (1-byte pieces, runs of 60-200 empty parts) for argv/array_message/memtok; every result compared "
     "with the same call on the contiguous copy and with a flat reference where one exists. exhaustive: all strings of length <= 5 (thorough: 6) over {a, space, quote, newline} x all compositions "
     "into <= 3 fragments x a fixed battery of all operations. non-trivial: >= 2 non-empty fragments and the answer position / consumed extent lies behind the first non-empty fragment "
     "(enumerated cases all count); distinct by hash of the draw sequence.",
